@@ -75,7 +75,7 @@ func c10RunSequential(c *core.Ctx, k int, actions []int, publishes int) {
 	derived.Subscribe(fpgo.Subscription[int]{OnNext: func(v int) { derivedGot = append(derivedGot, v) }})
 	subs := make([]*fpgo.Subscription[int], k)
 	registered := make([]bool, k+20) // model: currently registered
-	unsubDuring := map[[2]int]bool{}  // (publish, sub) -> (un)subscribed during that publish
+	unsubDuring := map[[2]int]bool{} // (publish, sub) -> (un)subscribed during that publish
 	curPub := -1
 	acted := map[[2]int]bool{}
 	extra := k
@@ -504,10 +504,10 @@ func init() {
 		ID: "C10",
 		Meta: func(c *core.Ctx) core.Meta {
 			return core.Meta{
-				Level: "exploration",
-				Rule: "(a) every sequential re-entrant history with k <= 3 (thorough 4) subscribers whose callbacks are scripted from {nothing, unsubscribe self, unsubscribe j, subscribe a new one, publish on a derived publisher} x 1..3 publishes: per (publish, subscription) the count must be 1 if registered before and not touched during, 0 if unsubscribed before, <= 1 always, subscription order among the untouched; (b) 1..4 concurrent publishers x 1..4 subscribe/unsubscribe churners with call/return stamps (registered throughout => exactly 1, Unsubscribe returned before Publish called => 0, never twice, stable subscriptions in order), PRNG yields or a publisher parked at the snapshot / before a delivery while a Subscribe+Unsubscribe pair completes; (c) Map chains of depth 1..3; (d) SubscribeOn(h) with 1..4 subscribers and handler capacity 0..2: exactly once each, on h's goroutine; (b)-(d) repeated under -race (deciding for publisher.go frames). distinct_nontrivial = enumerated sequential histories + distinct concurrent scenarios / hook-trace signatures",
+				Level:       "exploration",
+				Rule:        "(a) every sequential re-entrant history with k <= 3 (thorough 4) subscribers whose callbacks are scripted from {nothing, unsubscribe self, unsubscribe j, subscribe a new one, publish on a derived publisher} x 1..3 publishes: per (publish, subscription) the count must be 1 if registered before and not touched during, 0 if unsubscribed before, <= 1 always, subscription order among the untouched; (b) 1..4 concurrent publishers x 1..4 subscribe/unsubscribe churners with call/return stamps (registered throughout => exactly 1, Unsubscribe returned before Publish called => 0, never twice, stable subscriptions in order), PRNG yields or a publisher parked at the snapshot / before a delivery while a Subscribe+Unsubscribe pair completes; (c) Map chains of depth 1..3; (d) SubscribeOn(h) with 1..4 subscribers and handler capacity 0..2: exactly once each, on h's goroutine; (b)-(d) repeated under -race (deciding for publisher.go frames). distinct_nontrivial = enumerated sequential histories + distinct concurrent scenarios / hook-trace signatures",
 				Assumptions: []string{"a subscription added or removed during a Publish may or may not see that value", "SubscribeOn uses a handler other than the publishing goroutine's own"},
-				Exhaustive: true,
+				Exhaustive:  true,
 			}
 		},
 		Scenarios: c10Scenarios,
